@@ -21,7 +21,7 @@ pub fn def() -> PropDef {
     PropDef {
         id: "C03",
         level: "exploration",
-        rule: "for each validly signed base entry: every single-byte alteration (each byte position of its wire encoding x {xor 0x01, xor 0x80, :=0x00, :=0xff}) that the crate still decodes, the two signatures swapped, signatures taken from another entry (other key / other author / other namespace), a validly signed entry of a foreign namespace, an entry claiming our namespace signed with a foreign namespace secret and entries naming a foreign / an unknown namespace signed with our namespace secret, author/namespace ids that are not curve points, timestamps now+10min-1/+0/+1 and the four emptiness combinations; each candidate is presented as a single remote insert to a replica that already holds the untampered original (signatures it has seen before), as a single remote insert and inside a hand-assembled reconciliation message at every position of every part (1..3 parts, 1..2 entries per part) among valid filler entries; the verdict is compared with an independent acceptance predicate; family G: a real node (Docs engine, gossip receive loop, store actor) syncs the document and an endpoint of the harness, joined to the document's gossip topic as its neighbour, broadcasts the candidates (byte alterations thinned to every 11th, thorough 5th, position) as Put operations, each followed by a validly signed probe: when the probe has entered, the replica holds the candidate exactly when the predicate allows it, reception has not stopped, and a subscriber of the docs API was told about exactly the entries that entered; non-trivial = distinct candidates that the crate decodes and that differ from the base entry",
+        rule: "for each validly signed base entry: every single-byte alteration (each byte position of its wire encoding x {xor 0x01, xor 0x80, :=0x00, :=0xff}) that the crate still decodes, the two signatures swapped, signatures taken from another entry (other key / other author / other namespace), a validly signed entry of a foreign namespace, an entry claiming our namespace signed with a foreign namespace secret and entries naming a foreign / an unknown namespace signed with our namespace secret, author/namespace ids that are not curve points, timestamps now+10min-1/+0/+1 and the four emptiness combinations; each candidate is presented as a single remote insert to a replica that already holds the untampered original (signatures it has seen before), as a single remote insert and inside a hand-assembled reconciliation message at every position of every part (1..3 parts, 1..2 entries per part) among valid filler entries; the verdict is compared with an independent acceptance predicate; one message layout (the candidate between two valid entries) is also handed to the store actor (SyncHandle::sync_process_message); family G: a real node (Docs engine, gossip receive loop, store actor) syncs the document and an endpoint of the harness, joined to the document's gossip topic as its neighbour, broadcasts the candidates (byte alterations thinned to every 11th, thorough 5th, position) as Put operations, each followed by a validly signed probe: when the probe has entered, the replica holds the candidate exactly when the predicate allows it, reception has not stopped, and a subscriber of the docs API was told about exactly the entries that entered; non-trivial = distinct candidates that the crate decodes and that differ from the base entry",
         assumptions: &[
             "ed25519 itself (unforgeability, strictness) is trusted: the predicate asks the same library routine with an independently computed message and keys",
             "candidates are single-fault: one altered byte or one substituted field per entry",
@@ -450,6 +450,67 @@ fn process(bytes: &[u8]) -> Option<Result<(Full, Vec<SignedEntry>, SyncOutcome),
     })
 }
 
+/// The same message handed to the store actor (`SyncHandle::sync_process_message`), the way a
+/// session of a node hands it over: what the actor adds in front of the replica must not change
+/// the verdict on any entry, nor keep the rest of the message from being processed.
+fn process_via_actor(bytes: &[u8]) -> Option<Result<(Vec<SignedEntry>, Vec<SignedEntry>), String>> {
+    use crate::sut::block_on_park;
+    use iroh_docs::actor::{OpenOpts, SyncHandle};
+    let msg: ProtocolMessage = postcard::from_bytes(bytes).ok()?;
+    let ns = ns_id(0);
+    let sut = Sut::memory_with(&[0]);
+    let h = SyncHandle::spawn(sut.store, None, "c03".into());
+    let (tx, rx) = async_channel::unbounded();
+    block_on_park(h.open(ns, OpenOpts::default().sync().subscribe(tx))).expect("open");
+    let res = block_on_park(h.sync_process_message(ns, msg, PEER, SyncOutcome::default()));
+    let out = match res {
+        Err(e) => Err(format!("{e:#}")),
+        Ok(_) => match block_on_park(crate::sut::handle_dump(&h, ns)) {
+            Ok(d) => Ok((d, drain(&rx))),
+            Err(e) => Err(format!("dump: {e}")),
+        },
+    };
+    let _ = block_on_park(h.shutdown());
+    Some(out)
+}
+
+fn present_in_message_via_actor(cand_bytes: &[u8], cand: &SignedEntry, ok: bool, layout: &[Vec<bool>]) -> Option<Vec<(&'static str, String)>> {
+    let mut bad = vec![];
+    let (bytes, _fill) = assemble(layout, Some(cand_bytes), false);
+    let (dump, events) = match process_via_actor(&bytes)? {
+        Err(e) => return Some(vec![("message_with_candidate_is_processed", format!("SyncHandle::sync_process_message failed: {e}"))]),
+        Ok(x) => x,
+    };
+    let mut expected_events = vec![];
+    let mut model = ModelReplica::default();
+    let fill = fillers();
+    let mut fi = 0;
+    for part in layout {
+        for &is_c in part {
+            let e = if is_c {
+                if !ok {
+                    continue;
+                }
+                cand.clone()
+            } else {
+                let f = fill[fi % fill.len()].clone();
+                fi += 1;
+                f
+            };
+            if matches!(model.put(&e), PutOutcome::Inserted { .. }) {
+                expected_events.push(e);
+            }
+        }
+    }
+    if dump != model.dump() {
+        bad.push((if ok { "valid_entry_stored_from_message" } else { "invalid_entry_not_stored_from_message" }, format!("through the store actor: impl={} model={}", show_entries(&dump), show_entries(&model.dump()))));
+    }
+    if events != expected_events {
+        bad.push(("events_exactly_for_applied_entries", format!("through the store actor: events={} expected={}", show_entries(&events), show_entries(&expected_events))));
+    }
+    Some(bad)
+}
+
 fn present_in_message(
     cand_bytes: &[u8],
     cand: &SignedEntry,
@@ -621,6 +682,26 @@ fn check_candidate(
                         format!("{}: {d}", c.label),
                         ordinal,
                     );
+                }
+            }
+        }
+    }
+    // (c) the same through the store actor, for the first layout that puts the candidate between
+    // two valid entries (byte alterations: every 5th position)
+    let thinned = c.label.strip_prefix("byte").and_then(|r| r.split(':').next()).and_then(|p| p.parse::<usize>().ok()).map(|p| p % 5 != 0).unwrap_or(false);
+    if !thinned {
+        if let Some(l) = lays.iter().find(|l| l.iter().map(|p| p.len()).sum::<usize>() >= 3 && l.iter().flatten().filter(|c| **c).count() == 1 && !l[0][0] && !*l.last().unwrap().last().unwrap()) {
+            report.count("presentations", 1);
+            report.count("presentations_through_the_store_actor", 1);
+            let canonical = raw.encode();
+            let _watch = crate::util::watch::enter("candidate inside a reconciliation message, through the store actor", case("message_actor", Some(l), false));
+            match catch(|| present_in_message_via_actor(&canonical, &cand, ok, l)) {
+                Err(p) => report.violation("no_panic", wit("message via actor"), case("message_actor", Some(l), false), format!("panic: {p}"), ordinal),
+                Ok(None) => {}
+                Ok(Some(bad)) => {
+                    for (o, d) in bad {
+                        report.violation(o, wit("message via actor"), case("message_actor", Some(l), false), format!("{}: {d}", c.label), ordinal);
+                    }
                 }
             }
         }
@@ -865,6 +946,9 @@ fn replay(case: &Value) -> anyhow::Result<(bool, String)> {
         let base: Spec = serde_json::from_value(case["base"].clone())?;
         let original = base.signed();
         catch(|| present_direct(&cand, ok, Some(&original)))
+    } else if path == "message_actor" {
+        let layout: Vec<Vec<bool>> = serde_json::from_value(case["layout"].clone())?;
+        catch(|| present_in_message_via_actor(&bytes, &cand, ok, &layout).unwrap_or_default())
     } else {
         let layout: Vec<Vec<bool>> = serde_json::from_value(case["layout"].clone())?;
         let have_local = case["have_local"].as_bool().unwrap_or(true);
